@@ -339,3 +339,153 @@ package service
 //@   requires clientAddr != nil && clientConn != nil && validNatconn(targetConn) && l != nil
 //@   requires len(pkt) == serverUDPBufferSize
 //@   requires saltSize == pure("shadowsocks.(*EncryptionKey).SaltSize", targetConn.cryptoKey) && bodyStart == saltSize + maxAddrLen
+
+// ---------------------------------------------------------------------------
+// Shared listeners (C11, C12, C13, C18, C19)
+// ---------------------------------------------------------------------------
+
+// Lock levels: a mutex may only be acquired while holding mutexes of strictly lower level.
+//@ locklevel virtualStreamListener.mu = 10
+//@ locklevel virtualPacketConn.mu = 10
+//@ locklevel listenerManager.mu = 20
+//@ locklevel multiStreamListener.mu = 30
+//@ locklevel multiPacketListener.mu = 30
+
+//@ guarded virtualStreamListener.{acceptCh,onCloseFunc} by virtualStreamListener.mu
+//@ guarded virtualStreamListener.{addr,closeCh} class immutable set when the handle is created
+//@ guarded virtualPacketConn.{onCloseFunc} by virtualPacketConn.mu
+//@ guarded virtualPacketConn.{PacketConn,readCh,closeCh} class immutable set when the handle is created
+//@ guarded multiStreamListener.{ln,count,acceptCh,onCloseFunc} by multiStreamListener.mu
+//@ guarded multiStreamListener.{addr} class immutable set by NewMultiStreamListener
+//@ guarded multiPacketListener.{pc,count,readCh,doneCh,onCloseFunc} by multiPacketListener.mu
+//@ guarded multiPacketListener.{addr} class immutable set by NewMultiPacketListener
+//@ guarded listenerManager.{streamListeners,packetListeners} by listenerManager.mu
+
+//@ lockinv[C12] virtualStreamListener.mu(sl) := (sl.acceptCh == nil) == closed(sl.closeCh)
+//@ lockinv[C12] multiStreamListener.mu(m) := (m.count > 0 ==> m.ln != nil) && (m.ln != nil ==> m.acceptCh != nil)
+//@ lockinv[C12] multiPacketListener.mu(m) := (m.count > 0 ==> m.pc != nil) && (m.pc != nil ==> m.readCh != nil && m.doneCh != nil && !closed(m.doneCh))
+//@ lockinv[C12] listenerManager.mu(m) := m.streamListeners != nil && m.packetListeners != nil \
+//@    && (forall k string :: has(m.streamListeners, k) ==> m.streamListeners[k] != nil) \
+//@    && (forall k string :: has(m.packetListeners, k) ==> m.packetListeners[k] != nil)
+
+// Function values stored in the listener structures.
+//@ func virtualStreamListener.onCloseFunc
+//@   abstract
+//@   acquires-level 20
+//@ func virtualPacketConn.onCloseFunc
+//@   abstract
+//@   acquires-level 20
+//@ func multiStreamListener.onCloseFunc
+//@   abstract
+//@   acquires-level 20
+//@ func multiPacketListener.onCloseFunc
+//@   abstract
+//@   acquires-level 20
+
+//@ func (*virtualStreamListener).AcceptStream
+//@   props C12 C13 C18 C19
+//@   acquires-level 10
+//@   requires sl != nil && sl.closeCh != nil
+//@   ensures[C12,closed-handle-refuses] old(closed(sl.closeCh)) ==> result.1 != nil && result.0 == nil
+
+//@ func (*virtualStreamListener).Close
+//@   props C12 C13 C18 C19
+//@   acquires-level 10
+//@   requires sl != nil && sl.closeCh != nil
+//@   ensures[C12,closed-after-close] closed(sl.closeCh)
+
+//@ func (*virtualPacketConn).ReadFrom
+//@   props C12 C18 C19
+//@   requires pc != nil && pc.closeCh != nil && pc.readCh != nil && !closed(pc.readCh)
+//@   ensures[C12,closed-handle-refuses] old(closed(pc.closeCh)) ==> result.2 != nil && result.1 == nil && result.0 == 0
+
+//@ func (*virtualPacketConn).Close
+//@   props C12 C13 C18 C19
+//@   acquires-level 10
+//@   requires pc != nil && pc.closeCh != nil && !closed(pc.closeCh)
+//@   ensures[C12,closed-after-close] closed(pc.closeCh)
+
+//@ func (*multiStreamListener).Acquire
+//@   props C11 C12 C13 C18 C19
+//@   acquires-level 30
+//@   requires m != nil
+//@   ensures result.1 == nil ==> result.0 != nil
+
+// accept goroutine of a shared stream listener: owns acceptCh (the only sender and closer)
+//@ func (*multiStreamListener).Acquire$1
+//@   props C12 C18 C19
+//@   goroutine
+//@   acquires-level 0
+//@   requires sharedLn != nil && sharedLn.ln != nil && acceptCh != nil && !closed(acceptCh)
+//@   trace[C12,closes-once] atmost 1 close
+
+// close function of one stream handle. It runs at most once per handle (the handle clears
+// its onCloseFunc) and only after Acquire counted the handle, hence count > 0 on entry.
+//@ func (*multiStreamListener).Acquire$2
+//@   props C11 C12 C13 C18 C19
+//@   acquires-level 20
+//@   requires m != nil
+//@   assume-at-lock m.count > 0
+//@   ensures[C12,socket-released-on-last-close] atlock(m.count) == 1 ==> m.ln == nil
+//@   ensures[C11,socket-kept-while-in-use] atlock(m.count) > 1 ==> m.ln == atlock(m.ln) && m.ln != nil
+//@   trace[C11,no-close-while-in-use] never service.StreamListener.Close when atlock(m.count) > 1
+//@   trace[C12,close-on-last] exactly 1 service.StreamListener.Close when atlock(m.count) == 1
+
+//@ func (*multiPacketListener).Acquire
+//@   props C11 C12 C13 C18 C19
+//@   acquires-level 30
+//@   requires m != nil
+//@   ensures result.1 == nil ==> result.0 != nil
+
+// read goroutine of a shared packet listener
+//@ pred chaninv_readCh(v readRequest) := v.respCh != nil && !closed(v.respCh)
+//@ pred chaninv_service_virtualPacketConn_readCh(v readRequest) := v.respCh != nil && !closed(v.respCh)
+//@ func (*multiPacketListener).Acquire$1
+//@   props C12 C18 C19
+//@   goroutine
+//@   acquires-level 0
+//@   requires pc != nil && readCh != nil && doneCh != nil
+//@   trace[C12,one-answer-per-datagram] loop 1 atmost 1 send
+
+// close function of one packet handle (same ownership argument as for streams)
+//@ func (*multiPacketListener).Acquire$2
+//@   props C11 C12 C13 C18 C19
+//@   acquires-level 20
+//@   requires m != nil
+//@   assume-at-lock m.count > 0
+//@   ensures[C12,socket-released-on-last-close] atlock(m.count) == 1 ==> m.pc == nil && closed(atlock(m.doneCh))
+//@   ensures[C11,socket-kept-while-in-use] atlock(m.count) > 1 ==> m.pc == atlock(m.pc) && m.pc != nil && !closed(m.doneCh)
+//@   trace[C11,no-close-while-in-use] never net.PacketConn.Close when atlock(m.count) > 1
+//@   trace[C12,close-on-last] exactly 1 net.PacketConn.Close when atlock(m.count) == 1
+
+//@ func NewMultiStreamListener
+//@   props C18
+//@   ensures result != nil
+//@ func NewMultiPacketListener
+//@   props C18
+//@   ensures result != nil
+
+//@ func MultiListener.Acquire
+//@   abstract
+//@   acquires-level 30
+//@   ensures result.1 == nil ==> result.0 != nil
+
+//@ func (*listenerManager).ListenStream
+//@   props C12 C13 C18 C19
+//@   acquires-level 20
+//@   requires m != nil
+//@ func (*listenerManager).ListenStream$1
+//@   props C12 C13 C18 C19
+//@   acquires-level 20
+//@   requires m != nil
+//@ func (*listenerManager).ListenPacket
+//@   props C12 C13 C18 C19
+//@   acquires-level 20
+//@   requires m != nil
+//@ func (*listenerManager).ListenPacket$1
+//@   props C12 C13 C18 C19
+//@   acquires-level 20
+//@   requires m != nil
+//@ func NewListenerManager
+//@   props C18
+//@   ensures result != nil
